@@ -119,26 +119,44 @@ Qed.
 Lemma ub_In g : In g (f0_ub fb) <-> In g (fl_act fb) /\ ~ In g c.
 Proof. unfold f0_ub. rewrite filter_In. rewrite negb_true_iff, memb_false. reflexivity. Qed.
 
-Lemma ubi_In g : In g ubi <-> In g (fl_act fb) /\ ~ In g c /\ ~ In g (f0_sf fb).
+Lemma ubb_In g : In g (f0_ubb fb) <-> In g (fl_act fb) /\ ~ In g c /\ is_derived fb g = false.
+Proof. unfold f0_ubb. rewrite filter_In, ub_In. rewrite negb_true_iff. tauto. Qed.
+
+Lemma ubi_In g : In g ubi <-> In g (fl_act fb) /\ ~ In g c /\ ~ In g (f0_sf fb) /\ is_derived fb g = false.
 Proof.
-  unfold f0_ubi. rewrite filter_In, ub_In. rewrite negb_true_iff, memb_false. tauto.
+  unfold f0_ubi. rewrite filter_In, ubb_In. rewrite negb_true_iff, memb_false. tauto.
 Qed.
 
-Lemma ubs_In g : In g ubs <-> In g (fl_act fb) /\ ~ In g c /\ In g (f0_sf fb).
+Lemma ubs_In g : In g ubs <-> In g (fl_act fb) /\ ~ In g c /\ In g (f0_sf fb) /\ is_derived fb g = false.
 Proof.
-  unfold f0_ubs. rewrite filter_In, ub_In. rewrite memb_In. tauto.
+  unfold f0_ubs. rewrite filter_In, ubb_In. rewrite memb_In. tauto.
 Qed.
+
+Lemma ucdl_In g : In g (f0_ucdl fb) <-> In g (fl_act fb) /\ ~ In g c /\ is_derived fb g = true.
+Proof. unfold f0_ucdl. rewrite filter_In, ub_In. tauto. Qed.
 
 Lemma ubi_nodup : NoDup ubi.
-Proof. unfold f0_ubi, f0_ub. apply NoDup_filter. apply NoDup_filter. apply (act_nodup fb HF). Qed.
+Proof. unfold f0_ubi, f0_ubb, f0_ub. apply NoDup_filter. apply NoDup_filter. apply NoDup_filter. apply (act_nodup fb HF). Qed.
 
-(** the factors of a candidate are those of [act_design] *)
-Lemma K_In g : In g K <-> In g (fl_act fb).
+(** the factors the sampler draws: those of [act_design] that are plain or in the sampled crossing *)
+Lemma K_In g : In g K <-> In g (fl_act fb) /\ (In g c \/ is_derived fb g = false).
 Proof.
   rewrite !in_app_iff, ubi_In, ubs_In. split.
-  - intros [H | [[H _] | [H _]]]; [apply (f0_cact_main fb HF); exact H | exact H | exact H].
-  - intros H. destruct (in_dec Nat.eq_dec g c); [left; assumption | right].
+  - intros [H | [(H & _ & _ & Hd) | (H & _ & _ & Hd)]]; [split; [apply (f0_cact_main fb HF); exact H | left; exact H] | auto | auto].
+  - intros [H [Hc | Hd]]; [left; exact Hc|]. destruct (in_dec Nat.eq_dec g c); [left; assumption | right].
     destruct (in_dec Nat.eq_dec g (f0_sf fb)); [left | right]; repeat split; assumption.
+Qed.
+
+Lemma K_not_ucd g : In g K -> ~ In g (f0_ucdl fb).
+Proof.
+  intros H Hu. apply K_In in H. apply ucdl_In in Hu. destruct H as [_ [H | H]], Hu as (_ & H1 & H2); [contradiction | congruence].
+Qed.
+
+(** the other factors of [act_design] are filled in afterwards *)
+Lemma K_or_ucd g : In g (fl_act fb) -> In g K \/ In g (f0_ucdl fb).
+Proof.
+  intros H. destruct (in_dec Nat.eq_dec g c) as [Hc | Hc]; [left; apply K_In; auto|].
+  destruct (is_derived fb g) eqn:E; [right; apply ucdl_In; auto | left; apply K_In; auto].
 Qed.
 
 Lemma K_nodup : NoDup K.
@@ -393,6 +411,19 @@ Definition decoded_row (k : key) (g : nat) : list (option nat) :=
   flat_map (fun cp => round_row C cp g) (k_rounds k) ++
   match k_left k with Some cp => round_row (f0_leftover fb) cp g | None => [] end.
 
+(** the level of a derived factor outside the sampled crossing in trial [t]: the first level whose predicate accepts
+    the levels the window reads ([select_level_for_sample]); the whole row of a factor of [act_design] *)
+Definition ucd_pick (rows : nat -> list (option nat)) (g t : nat) : option nat :=
+  match window_of fb g with
+  | Some w => find (fun l => predicate fb g l (map (fun d => [nth t (rows d) None]) (win_deps w))) (all_levels fb g)
+  | None => None
+  end.
+Definition cand_row (k : key) (g : nat) : list (option nat) :=
+  if memb g (f0_ucdl fb) then map (fun t => ucd_pick (decoded_row k) g t) (seq 0 (fl_trials fb)) else decoded_row k g.
+
+Lemma cand_row_K k g : ~ In g (f0_ucdl fb) -> cand_row k g = decoded_row k g.
+Proof. intros H. unfold cand_row. apply memb_false in H. rewrite H. reflexivity. Qed.
+
 Lemma fold_combine (rnds : list run) : forall r0 : run,
   (forall rnd, In rnd rnds -> NoDup (map fst rnd) /\ (forall g, rlookup rnd g <> None <-> In g K)) ->
   (r0 = [] \/ forall g, In g K -> rlookup r0 g <> None) ->
@@ -630,8 +661,10 @@ Proof.
   rewrite He. cbn [option_map of_opt rbind app fst]. rewrite Z.add_0_l, Nat2Z.id. reflexivity.
 Qed.
 
+(** the candidate before the derived factors outside the crossing are filled in *)
 Lemma decode_f0 k : key_ok fb k ->
-  exists r, decode_with fb en k = ROk r /\ forall g, row_of_run r g = decoded_row fb k g.
+  exists r, decode_with fb en k = fill_in_derived fb r (stable_sort (fdepth fb) (f0_ucdl fb)) 0 (fl_trials fb) /\
+            forall g, row_of_run r g = decoded_row fb k g.
 Proof.
   intros (Hpre & Hlen & Hrounds & Hleft). unfold decode_with. pose proof (f0_C_pos fb HF) as HC.
   pose proof (f0_leftover_lt fb HF) as Hlo.
